@@ -36,7 +36,8 @@ class EngineC14(HistEngine):
                              ("new", w_new if len(insts) < 3 else 0),
                              ("add_sub", 1), ("parse_err", fail_w // 2), ("load", 1), ("loaded_insn", 2), ("twins", 1),
                              ("add_macro", 1), ("shortcode", 1 if ch.chance(1, 6, "sc?") else 0),
-                             ("deep", 1 if fail_w and ch.chance(1, 3, "deep?") else 0), ("again", 2 if ops else 0)], "opkind")
+                             ("deep", 1 if fail_w and ch.chance(1, 3, "deep?") else 0), ("again", 2 if ops else 0),
+                             ("deeptree", 1 if ch.chance(1, 3, "deeptree?") else 0)], "opkind")
             if k == "new":
                 fmt = ch.choice(FMTS, "newfmt")
                 ops.append({"op": "new_compiler", "fmt": fmt})
@@ -81,6 +82,13 @@ class EngineC14(HistEngine):
                     ops.append({"op": "compile_parsed", "inst": inst, "name": nm, "parts": self.beh[n1]})
                     ops.append({"op": "shortcode", "inst": i2, "behaviors": {nm: self.beh[n2]}})
                     ops.append({"op": "compile_parsed", "inst": i2, "name": nm, "parts": self.beh[n2]})
+                continue
+            if k == "deeptree":
+                # a very deep (but legal) tree, compiled twice from the same tree object
+                t = ch.choice(gen_beh.DEEP_TREES, "deeptree")
+                for rep in range(2):
+                    ops.append({"op": "insn", "inst": ch.draw(len(insts), "dtinst"), "name": "deep_%s_%d" % (stable_hash(t)[:6], rep),
+                                "parts": [t], "via": "transform_insn"})
                 continue
             if k == "again":
                 # the very same input (the same parse tree object) once more, on any instance
